@@ -382,6 +382,12 @@ def _explore_check_types():
         "async": [("pos", lambda d: ((d,), {}))],
         "unannotated_other": [("pos", lambda d: ((d, frames["bad_first"]), {}))],
     }
+    # the coroutine wrapper is a separate copy of the synchronous one: every signature shape x call shape also as `async def`
+    for k in list(sigs):
+        if k != "async":
+            sigs["async_" + k] = sigs[k].replace("def f(", "async def f(")
+            calls["async_" + k] = calls[k]
+    calls["async"] = calls["plain"]
     for sname, src in sigs.items():
         for lazy in (False, True):
             for fname, frame in frames.items():
@@ -407,10 +413,10 @@ def _explore_check_types():
                     except Exception as e:  # noqa
                         viol.setdefault(("check_types.definition", f"{sname}:{type(e).__name__}"), repr(e)[:200])
                         continue
-                    fn = ns["K"]().f if sname == "method" else ns["f"]
+                    fn = ns["K"]().f if sname.endswith("method") else ns["f"]
                     want_status, parsed = _direct(M.to_schema(), frame, {"lazy": lazy})
                     args, kwargs = mk(frame.copy())
-                    got_status, res = _invoke(fn, args, kwargs, sname == "async")
+                    got_status, res = _invoke(fn, args, kwargs, sname.startswith("async"))
                     tag = f"{sname}|{cname}|{'lazy' if lazy else 'eager'}"
                     if got_status.startswith("exc:"):
                         viol.setdefault(("check_types.no_foreign_exception", f"{tag}|{got_status}"), f"frame={fname}: {res!r}")
@@ -424,7 +430,7 @@ def _explore_check_types():
                         viol.setdefault(("check_types.body_receives_parsed_object", f"{tag}|{fname}"), f"{ran['got']} vs {_snap(parsed)}")
                 # Optional: None passes through
         if sname == "optional":
-            n += 1
+            n += 1  # (synchronous shape only)
             ran = {"v": False}
             ns = {"DataFrame": DataFrame, "M": M, "typing": typing, "body": lambda df, ran=ran: (ran.__setitem__("v", True), df)[1], "pa": pa}
             exec("@pa.check_types\n" + src, ns)  # noqa: S102
